@@ -140,23 +140,31 @@ func (c *FCtx) run(alias [2]string) {
 	st := &State{vars: map[types.Object]int{}, cells: map[int]Val{}, written: map[int]bool{}}
 	c.entry = st // globals created while binding go to the same state
 	var order []string
-	bind := func(fl *ast.FieldList) {
+	var rparams []replayParam
+	isRecv := map[string]bool{}
+	replayable := true
+	bind := func(fl *ast.FieldList, recv bool) {
 		if fl == nil {
 			return
 		}
 		for _, f := range fl.List {
+			if len(f.Names) == 0 {
+				replayable = false
+			}
 			for _, n := range f.Names {
 				if n.Name == "_" {
+					replayable = false
 					continue
 				}
 				obj := c.info.Defs[n]
 				c.params[n.Name] = obj
 				order = append(order, n.Name)
+				isRecv[n.Name] = recv
 			}
 		}
 	}
-	bind(fi.Decl.Recv)
-	bind(fi.Decl.Type.Params)
+	bind(fi.Decl.Recv, true)
+	bind(fi.Decl.Type.Params, false)
 	vals := map[string]Val{}
 	for _, n := range order {
 		obj := c.params[n]
@@ -192,6 +200,7 @@ func (c *FCtx) run(alias [2]string) {
 		vals[n] = v
 		c.declare(st, obj, v)
 		c.recordInputs(n, v, st)
+		rparams = append(rparams, replayParam{Name: n, Typ: obj.Type(), V: v, Recv: isRecv[n]})
 	}
 	// named results
 	if fi.Decl.Type.Results != nil {
@@ -207,6 +216,9 @@ func (c *FCtx) run(alias [2]string) {
 	// requires
 	entrySnap := st.clone()
 	c.entry = entrySnap
+	if c.variant == "" && replayable {
+		c.rpBase = &replayInfo{fi: fi, ctx: c, params: rparams, entry: entrySnap}
+	}
 	penv := c.exitEnv(st, nil)
 	penv.old = entrySnap
 	for _, rq := range con.Requires {
@@ -302,6 +314,12 @@ func (c *FCtx) recordInputs(name string, v Val, st *State) {
 
 func (c *FCtx) checkReturn(f Flow) {
 	con := c.con
+	if c.rpBase != nil && c.inlineDepth == 0 {
+		cp := *c.rpBase
+		cp.post, cp.results = f.st, f.results
+		c.rpCur = &cp
+		defer func() { c.rpCur = nil }()
+	}
 	env := c.exitEnv(f.st, f.results)
 	if len(con.Exits) > 0 && f.retPos.IsValid() {
 		// internal postconditions may mention the locals in scope at this return statement
